@@ -173,12 +173,13 @@ struct RecvOut
   std::size_t lenAfter = 0;
 };
 
-RecvOut doReceive(net::Transport &tr, SessionId sid, std::size_t bufLen, std::chrono::milliseconds tmo)
+RecvOut doReceive(net::Transport &tr, SessionId sid, std::size_t bufLen, std::chrono::milliseconds tmo,
+                  net::CancellationToken *token = nullptr)
 {
   // exact-size heap buffer: ASan sees any write beyond what the caller offered
   std::unique_ptr<std::uint8_t[]> b(new std::uint8_t[bufLen ? bufLen : 1]);
   std::size_t len = bufLen;
-  auto r = tr.receiveSync(sid, b.get(), len, tmo);
+  auto r = token ? tr.receiveSyncCancellable(sid, b.get(), len, *token, tmo) : tr.receiveSync(sid, b.get(), len, tmo);
   RecvOut o;
   o.lenAfter = len;
   if (r.isOk())
@@ -571,7 +572,8 @@ struct ConcPlan
   struct Io
   {
     unsigned delayUs;
-    std::size_t len;
+    std::size_t len;     // 0 for a cancel item
+    bool cancel = false; // the I/O thread calls cancel() on the reader's current token instead of delivering
   };
   std::vector<Io> io;
   bool close = false;
@@ -579,7 +581,7 @@ struct ConcPlan
   std::size_t closeReason = 0; // index into kCloseReasons
   struct App
   {
-    int kind; // 0 receive, 1 setmode, 2 pause
+    int kind; // 0 receive, 1 setmode, 2 pause, 3 receiveSyncCancellable (len, tmoMs as for 0)
     std::size_t len;
     unsigned tmoMs;
     ReadMode mode;
@@ -630,6 +632,10 @@ static void runConcurrent(pbt::Case &c, const ConcPlan &p)
 
   std::string arrival;
   for (auto &x : p.io) arrival += arrivalBytes(0, arrival.size(), x.len);
+  // the reader's current cancellation token; the scripted I/O thread cancels whatever is current
+  std::mutex tokMu;
+  auto curToken = std::make_shared<net::CancellationToken>();
+  unsigned nCancelIssued = 0;
 
   struct ChunkStamp
   {
@@ -661,6 +667,20 @@ static void runConcurrent(pbt::Case &c, const ConcPlan &p)
       for (std::size_t i = 0; i < p.io.size(); ++i)
       {
         if (p.io[i].delayUs) std::this_thread::sleep_for(std::chrono::microseconds(p.io[i].delayUs));
+        if (p.io[i].cancel)
+        {
+          std::shared_ptr<net::CancellationToken> t;
+          {
+            std::lock_guard<std::mutex> lk(tokMu);
+            t = curToken;
+            ++nCancelIssued;
+          }
+          t->cancel();
+          stamps[i].from = off;
+          stamps[i].len = 0;
+          stamps[i].s0 = stamps[i].s1 = ++clk;
+          continue;
+        }
         std::unique_ptr<char[]> heap(new char[p.io[i].len]);
         std::memcpy(heap.get(), arrival.data() + off, p.io[i].len);
         stamps[i].from = off;
@@ -718,12 +738,35 @@ static void runConcurrent(pbt::Case &c, const ConcPlan &p)
     return n;
   };
 
-  auto receive = [&](std::size_t len, unsigned tmoMs) -> TransportError
+  unsigned nCancelledCalls = 0, nCancellableData = 0;
+  auto receive = [&](std::size_t len, unsigned tmoMs, bool cancellable = false) -> TransportError
   {
     auto t0 = std::chrono::steady_clock::now();
     std::uint64_t startNs = nowNs();
-    RecvOut out = doReceive(*tr, sid, len, std::chrono::milliseconds{tmoMs});
+    std::shared_ptr<net::CancellationToken> tok;
+    if (cancellable)
+    {
+      std::lock_guard<std::mutex> lk(tokMu);
+      tok = curToken;
+    }
+    RecvOut out = doReceive(*tr, sid, len, std::chrono::milliseconds{tmoMs}, tok.get());
     auto el = std::chrono::steady_clock::now() - t0;
+    bool tokenWasCancelled = tok && tok->isCancelled();
+    if (tokenWasCancelled)
+    {
+      std::lock_guard<std::mutex> lk(tokMu);
+      if (curToken == tok) curToken = std::make_shared<net::CancellationToken>(); // a fresh token for later calls
+    }
+    if (out.ok && cancellable) ++nCancellableData;
+    if (!out.ok && out.code == TransportError::Cancelled)
+    {
+      // a cancelled call hands nothing over - and must not have consumed anything: whatever it would have
+      // returned has to come out of the later reads (judged by the stream oracles below)
+      if (!tokenWasCancelled)
+        fail("C03/cancelled-without-cancel", "receiveSyncCancellable returned Cancelled although cancel() was never called on its token");
+      ++nCancelledCalls;
+      return out.code;
+    }
     {
       // lost wake-up: the call was already in progress when onClose was delivered and still
       // returned (whatever it returned) more than 1.5 s after it - only its own timeout ended it
@@ -761,7 +804,8 @@ static void runConcurrent(pbt::Case &c, const ConcPlan &p)
     {
     case TransportError::Timeout:
       ++nTimeout;
-      if (overflowSeen) fail("C03/overflow-not-sticky", "receiveSync returned Timeout after BufferOverflow");
+      // (the cancellable wrapper may report its own Timeout without having polled receiveSync at all)
+      if (overflowSeen && !cancellable) fail("C03/overflow-not-sticky", "receiveSync returned Timeout after BufferOverflow");
       break;
     case TransportError::BufferOverflow:
       overflowSeen = true;
@@ -794,6 +838,8 @@ static void runConcurrent(pbt::Case &c, const ConcPlan &p)
     if (!failSig.empty()) break;
     if (a.kind == 0)
       receive(a.len, a.tmoMs);
+    else if (a.kind == 3)
+      receive(a.len, a.tmoMs, true);
     else if (a.kind == 1)
     {
       bool openedWindow = false;
@@ -932,12 +978,17 @@ static void runConcurrent(pbt::Case &c, const ConcPlan &p)
   if (p.flushCbDelayUs) d << " flushCbDelay=" << p.flushCbDelayUs << "us";
   if (p.perturbSeed) d << " perturb=" << p.perturbSeed;
   d << " io:";
-  for (auto &x : p.io) d << " +" << x.delayUs << "us/" << x.len << "B";
+  for (auto &x : p.io)
+  {
+    if (x.cancel) d << " +" << x.delayUs << "us/cancel()";
+    else d << " +" << x.delayUs << "us/" << x.len << "B";
+  }
   if (p.close) d << " +" << p.closeDelayUs << "us/close(" << kCloseReasons[p.closeReason % kNCloseReasons].msg << ")";
   d << " app:";
   for (auto &a : p.app)
   {
     if (a.kind == 0) d << " R(" << a.len << "," << a.tmoMs << "ms)";
+    else if (a.kind == 3) d << " RC(" << a.len << "," << a.tmoMs << "ms)";
     else if (a.kind == 1) d << " M(" << modeName(a.mode) << ")";
     else d << " P(" << a.pauseUs << "us)";
   }
@@ -956,6 +1007,9 @@ static void runConcurrent(pbt::Case &c, const ConcPlan &p)
     c.label("drained up to a close with a reason other than PeerClosed");
   if (overflowSeen) c.label("BufferOverflow reported");
   if (nFlushBytes) c.label("flush handed buffered bytes");
+  if (nCancelledCalls) c.label("receiveSyncCancellable returned Cancelled");
+  if (nCancellableData) c.label("receiveSyncCancellable returned data");
+  if (nCancellableData && nCancelIssued) c.label("cancel() issued in a case where a cancellable receive returned data");
   if (!disabledWin.empty()) c.label("Disabled window");
   if (nRefusedAfterClose) c.label("mode switch refused after the close");
   if (p.closeAfterParked && eofSeen) c.label("close delivered to a parked receiver");
@@ -975,6 +1029,7 @@ static ConcPlan genConc(pbt::Src &src)
   const bool knownS2 = pbt::isKnown("C03/switch-to-async-leaves-buffered-bytes");
   if (knownS1 && p.variant == 2) p.variant = 0; // no overflow schedules
   p.cap = p.variant == 2 ? src.oneOf<std::size_t>({8, 64}) : (1u << 20);
+  const bool useCancellable = src.coin(1, 2); // the reader uses receiveSyncCancellable for a share of its receives
   auto io = src.rows(24, 2, 0, 65535);
   std::size_t total = 0;
   for (auto &r : io)
@@ -985,7 +1040,12 @@ static ConcPlan genConc(pbt::Src &src)
     x.len = 1 + static_cast<std::size_t>(r[1]) % maxLen;
     if (p.variant == 3 && total + x.len > 250) break;
     total += x.len;
+    // cancel() on the reader's current token right before / right after this chunk (same polling slice)
+    bool withCancel = useCancellable && (r[0] / 512) % 4 == 0;
+    ConcPlan::Io cx{static_cast<unsigned>((r[0] / 8192) % 3 == 0 ? 0 : (r[0] / 64) % 60), 0, true};
+    if (withCancel && (r[0] / 4096) % 2 == 0) p.io.push_back(cx);
     p.io.push_back(x);
+    if (withCancel && (r[0] / 4096) % 2 == 1) p.io.push_back(cx);
   }
   p.close = src.coin(2, 3);
   p.closeDelayUs = static_cast<unsigned>(src.range(0, 300));
@@ -1007,6 +1067,12 @@ static ConcPlan genConc(pbt::Src &src)
       a.kind = 0;
       a.len = lens[static_cast<std::size_t>(r[1]) % 5];
       a.tmoMs = tmos[static_cast<std::size_t>(r[2]) % 4];
+      if (useCancellable && (r[0] / 16) % 2 == 0)
+      {
+        static const unsigned ctmos[] = {1, 2, 10, 50}; // (a zero timeout never polls)
+        a.kind = 3;
+        a.tmoMs = ctmos[static_cast<std::size_t>(r[2]) % 4];
+      }
       if (k >= 8)
       {
         a.kind = 2;
@@ -1066,6 +1132,28 @@ PBT_REGRESSION(conc_close_wakes_parked_receiver)
   p.close = true;
   p.closeAfterParked = true;
   p.app = {{0, 64, 10, ReadMode::Sync, 0}};
+  runConcurrent(c, p);
+}
+PBT_REGRESSION(conc_cancel_right_after_data_in_one_slice)
+{
+  // the reader is parked in receiveSyncCancellable (one 100 ms polling slice); the I/O thread delivers 10 bytes
+  // and calls cancel() immediately afterwards, before the woken reader has run. Whatever the call returns, no
+  // byte may disappear: either it returns the bytes, or it returns Cancelled and the bytes come out of later reads.
+  ConcPlan p;
+  p.variant = 0;
+  p.io = {{4000, 10}, {0, 0, true}, {3000, 5}, {0, 0, true}, {2000, 7}};
+  p.close = true;
+  p.closeDelayUs = 200;
+  p.app = {{3, 64, 50, ReadMode::Sync, 0}, {3, 64, 50, ReadMode::Sync, 0}, {3, 64, 50, ReadMode::Sync, 0}, {0, 64, 10, ReadMode::Sync, 0}};
+  runConcurrent(c, p);
+}
+PBT_REGRESSION(conc_cancel_before_data_and_idle)
+{
+  ConcPlan p;
+  p.variant = 0;
+  p.io = {{2000, 0, true}, {0, 6}, {3000, 0, true}, {3000, 4}};
+  p.close = true;
+  p.app = {{3, 8, 50, ReadMode::Sync, 0}, {3, 8, 10, ReadMode::Sync, 0}, {2, 0, 0, ReadMode::Sync, 4000}, {3, 8, 10, ReadMode::Sync, 0}};
   runConcurrent(c, p);
 }
 PBT_REGRESSION(conc_overflow_no_hidden_gap)
